@@ -149,6 +149,8 @@ def check_one(c):
             st_ = gen.build_state(sc)
             am, ph = gen.ref_nets(sc)
             psi = R.psi_ref(am, ph, V)
+            with R.library_precision():
+                psi_prec = R.psi_ref(am, ph, V)          # precision tier (see c01.py)
             kw = {}
             tol = 1e-7 * float(psi.abs().max())
         ukw = {"unitaries": udict_lib} if (mode == "positive" or c.get("extras") or own) else {}      # explicit unitaries= (required for positive states) or the state's own dictionary
@@ -169,6 +171,12 @@ def check_one(c):
         require(got.shape == (len(idx),), "inner_prod:shape", f"rotate_psi_inner_prod shape {tuple(got.shape)}")
         require(bool(torch.all((got - ref[idx]).abs() <= tol)), "rotate_psi_inner_prod!=(U.psi)[idx]",
                 f"rotate_psi_inner_prod differs from entries of U psi (basis {basis})", worst=float((got - ref[idx]).abs().max()), tol=tol)
+        if mode != "explicit_psi":
+            ref_p = U @ psi_prec
+            tol_p = 1e-11 * float(psi_prec.abs().max())
+            full_p = R.lib_to_c(UN.rotate_psi(st_, basis, space, **ukw))
+            require(bool(torch.all((full_p - ref_p).abs() <= tol_p)) and bool(torch.all((got - ref_p[idx]).abs() <= tol_p)), "precision:rotate_psi",
+                    f"rotate_psi / rotate_psi_inner_prod of the model's state are not accurate to double precision (basis {basis})", worst=float((full_p - ref_p).abs().max()), tol=tol_p)
         p = (ref.abs() ** 2)
         require(abs(float(p.sum()) - float((psi.abs() ** 2).sum())) <= 1e-9 * float((psi.abs() ** 2).sum()) + 1e-300, "oracle-unitarity", "reference U is not unitary?!")
         nonreal = bool((psi.imag.abs() > 1e-9 * psi.abs().max()).any())
@@ -189,6 +197,8 @@ def check_one(c):
             st_ = gen.build_state(sc)
             am, ph = gen.ref_nets(sc)
             rho = R.rho_ref(am, ph, V)
+            with R.library_precision():
+                rho_prec = R.rho_ref(am, ph, V)
             kw = {}
             tol = 1e-6 * float(rho.abs().max())
         space = st_.generate_hilbert_space()
@@ -210,6 +220,12 @@ def check_one(c):
         require(bool(torch.all((tot.double() - pref[idx]).abs() <= tol)), "rotate_rho_probs!=diag(U.rho.Udag)[idx]",
                 f"rotate_rho_probs differs from the diagonal of U rho U^dagger (basis {basis}, {'explicit rho' if kw else 'model rho'})",
                 got=tot.tolist(), ref=pref[idx].tolist())
+        if mode == "density":
+            ref_p = U @ rho_prec @ U.conj().t()
+            tol_p = 1e-11 * float(rho_prec.abs().max())
+            full_p = R.lib_to_c(UN.rotate_rho(st_, basis, space, **ukw))
+            require(bool(torch.all((full_p - ref_p).abs() <= tol_p)) and bool(torch.all((tot.double() - ref_p.diagonal().real[idx]).abs() <= tol_p)), "precision:rotate_rho",
+                    f"rotate_rho / rotate_rho_probs of the model's state are not accurate to double precision (basis {basis})", worst=float((full_p - ref_p).abs().max()), tol=tol_p)
         if mode == "density" or c.get("psd"):
             full = UN.rotate_rho_probs(st_, basis, V.clone(), **ukw, **kw).double()
             require(bool(torch.all(full >= -1e-9 * rho.abs().max())), "rotated-probs-negative", "rotated Born probabilities of a physical state are negative")
